@@ -95,6 +95,10 @@ def harness_run(r):
     h = {"mode": r["mode"], "code": r["code"], "wait_ms": r["wait_ms"], "settle_ms": r["settle_ms"], "loc": r["loc"]}
     if r["control_ms"] is not None:
         h["control_ns"] = r["control_ms"] * MS
+    if r["mode"] in ("direct", "cond", "action") and r["id"] % 3 == 0:
+        # the caller's context was last used with another location: a very short limit there when this location allows the
+        # script to finish, a very long one when this location should stop it
+        h["stale_ctx_ns"] = (8000 if r.get("runs_past") else 1) * MS
     if r["strip"]:
         h["rule"], h["event"], h["embedded"] = r["rule"], r["event"], r["embedded"]
     else:
@@ -475,7 +479,17 @@ def main():
                 break
 
     # 6. known findings: replay the witness
-    kf = known_findings("C14") or PROPOSED
+    # a finding that has been repaired by a `fix:` commit (listed under "fixed") is no longer tolerated: its class is judged like any other run
+    try:
+        fixed_ids = {x.get("id") for x in json.load(open(os.path.join(VERIF, "known_findings.json"))).get("fixed", []) if x.get("property") == "C14"}
+        fixed_any = any(x.get("property") == "C14" for x in json.load(open(os.path.join(VERIF, "known_findings.json"))).get("fixed", []))
+    except Exception:
+        fixed_ids, fixed_any = set(), False
+    kf = [f for f in (known_findings("C14") or PROPOSED) if f["id"] not in fixed_ids and not (fixed_any and not known_findings("C14"))]
+    if not kf and stats["known"]:
+        gr = next(rr for rr in runs if verdicts[rr["id"]][0] == "known")
+        ck.violation("a script that runs past an enabled JavaScript timeout is not stopped and reported within the bound (mode %s, limit %s ms, `%s`): %s" % (
+            gr["mode"], gr["eff_ms"], gr["code"][:80], verdicts[gr["id"]][1]), {"case": harness_run(gr), "run": {k: gr[k] for k in ("mode", "code", "sys", "control_ms", "family")}, "impl": impl[gr["id"]]}, tag="timeout")
     for f in kf:
         w = f["witness"]
         bw = Builder(rng, margin)
@@ -500,8 +514,6 @@ def main():
             ck.note("known finding %s no longer reproduces: the call returns a timeout error within the bound (repaired behaviour is now required)" % f["id"])
         else:
             ck.note("known finding %s: witness outcome %s" % (f["id"], [s[0] for s in seen]))
-    if stats["known"] and not any(True for _ in kf):
-        ck.violation("runs in the known class but no finding listed", {}, tag="kf", no_input=True)
 
     for r in runs[:2] + [x for x in runs if x["family"] == "loop"][:2] + [x for x in runs if x["family"].startswith("past")][:1]:
         ck.sample({"mode": r["mode"], "code": r["code"], "bs": r["bs"], "sys": r["sys"], "control_ms": r["control_ms"],
